@@ -227,9 +227,10 @@ package encode
 // real methods; slimvc checks it against the callees' CONTRACTS only, so the
 // lemma holds for every implementation that satisfies the contracts above.
 
-// @ func lemmaRoundTripU16
-// @   property C15
-// @   ensures result0 == v && result1 == result4 && result2 == result4 && result3 == result4
+//@ func lemmaRoundTripU16
+//@   property C15
+//@   ensures result0 == v && result1 == result4 && result2 == result4 && result3 == result4
+
 func lemmaRoundTripU16(v uint16, tail []byte) (uint16, int, int, int, int) {
 	e := U16{}
 	enc := e.Encode(v)
@@ -238,9 +239,10 @@ func lemmaRoundTripU16(v uint16, tail []byte) (uint16, int, int, int, int) {
 	return d.(uint16), n, e.GetSize(v), e.GetEncodedSize(buf), len(enc)
 }
 
-// @ func lemmaRoundTripU32
-// @   property C15
-// @   ensures result0 == v && result1 == result4 && result2 == result4 && result3 == result4
+//@ func lemmaRoundTripU32
+//@   property C15
+//@   ensures result0 == v && result1 == result4 && result2 == result4 && result3 == result4
+
 func lemmaRoundTripU32(v uint32, tail []byte) (uint32, int, int, int, int) {
 	e := U32{}
 	enc := e.Encode(v)
@@ -249,9 +251,10 @@ func lemmaRoundTripU32(v uint32, tail []byte) (uint32, int, int, int, int) {
 	return d.(uint32), n, e.GetSize(v), e.GetEncodedSize(buf), len(enc)
 }
 
-// @ func lemmaRoundTripU64
-// @   property C15
-// @   ensures result0 == v && result1 == result4 && result2 == result4 && result3 == result4
+//@ func lemmaRoundTripU64
+//@   property C15
+//@   ensures result0 == v && result1 == result4 && result2 == result4 && result3 == result4
+
 func lemmaRoundTripU64(v uint64, tail []byte) (uint64, int, int, int, int) {
 	e := U64{}
 	enc := e.Encode(v)
@@ -260,9 +263,10 @@ func lemmaRoundTripU64(v uint64, tail []byte) (uint64, int, int, int, int) {
 	return d.(uint64), n, e.GetSize(v), e.GetEncodedSize(buf), len(enc)
 }
 
-// @ func lemmaRoundTripI16
-// @   property C15
-// @   ensures result0 == v && result1 == result4 && result2 == result4 && result3 == result4
+//@ func lemmaRoundTripI16
+//@   property C15
+//@   ensures result0 == v && result1 == result4 && result2 == result4 && result3 == result4
+
 func lemmaRoundTripI16(v int16, tail []byte) (int16, int, int, int, int) {
 	e := I16{}
 	enc := e.Encode(v)
@@ -271,9 +275,10 @@ func lemmaRoundTripI16(v int16, tail []byte) (int16, int, int, int, int) {
 	return d.(int16), n, e.GetSize(v), e.GetEncodedSize(buf), len(enc)
 }
 
-// @ func lemmaRoundTripI32
-// @   property C15
-// @   ensures result0 == v && result1 == result4 && result2 == result4 && result3 == result4
+//@ func lemmaRoundTripI32
+//@   property C15
+//@   ensures result0 == v && result1 == result4 && result2 == result4 && result3 == result4
+
 func lemmaRoundTripI32(v int32, tail []byte) (int32, int, int, int, int) {
 	e := I32{}
 	enc := e.Encode(v)
@@ -282,9 +287,10 @@ func lemmaRoundTripI32(v int32, tail []byte) (int32, int, int, int, int) {
 	return d.(int32), n, e.GetSize(v), e.GetEncodedSize(buf), len(enc)
 }
 
-// @ func lemmaRoundTripI64
-// @   property C15
-// @   ensures result0 == v && result1 == result4 && result2 == result4 && result3 == result4
+//@ func lemmaRoundTripI64
+//@   property C15
+//@   ensures result0 == v && result1 == result4 && result2 == result4 && result3 == result4
+
 func lemmaRoundTripI64(v int64, tail []byte) (int64, int, int, int, int) {
 	e := I64{}
 	enc := e.Encode(v)
@@ -293,9 +299,10 @@ func lemmaRoundTripI64(v int64, tail []byte) (int64, int, int, int, int) {
 	return d.(int64), n, e.GetSize(v), e.GetEncodedSize(buf), len(enc)
 }
 
-// @ func lemmaRoundTripI8
-// @   property C15
-// @   ensures result0 == v && result1 == result4 && result2 == result4 && result3 == result4
+//@ func lemmaRoundTripI8
+//@   property C15
+//@   ensures result0 == v && result1 == result4 && result2 == result4 && result3 == result4
+
 func lemmaRoundTripI8(v int8, tail []byte) (int8, int, int, int, int) {
 	e := I8{}
 	enc := e.Encode(v)
@@ -304,9 +311,10 @@ func lemmaRoundTripI8(v int8, tail []byte) (int8, int, int, int, int) {
 	return d.(int8), n, e.GetSize(v), e.GetEncodedSize(buf), len(enc)
 }
 
-// @ func lemmaRoundTripInt
-// @   property C15
-// @   ensures result0 == v && result1 == result4 && result2 == result4 && result3 == result4
+//@ func lemmaRoundTripInt
+//@   property C15
+//@   ensures result0 == v && result1 == result4 && result2 == result4 && result3 == result4
+
 func lemmaRoundTripInt(v int, tail []byte) (int, int, int, int, int) {
 	e := Int{}
 	enc := e.Encode(v)
@@ -315,11 +323,12 @@ func lemmaRoundTripInt(v int, tail []byte) (int, int, int, int, int) {
 	return d.(int), n, e.GetSize(v), e.GetEncodedSize(buf), len(enc)
 }
 
-// @ func lemmaRoundTripString16
-// @   property C15
-// @   requires len(v) < 65536
-// @   ensures len(result0) == len(v) && forall(k, 0, len(v), result0[k] == v[k])
-// @   ensures result1 == result4 && result2 == result4 && result3 == result4
+//@ func lemmaRoundTripString16
+//@   property C15
+//@   requires len(v) < 65536
+//@   ensures len(result0) == len(v) && forall(k, 0, len(v), result0[k] == v[k])
+//@   ensures result1 == result4 && result2 == result4 && result3 == result4
+
 func lemmaRoundTripString16(v string, tail []byte) (string, int, int, int, int) {
 	e := String16{}
 	enc := e.Encode(v)
@@ -328,11 +337,12 @@ func lemmaRoundTripString16(v string, tail []byte) (string, int, int, int, int) 
 	return d.(string), n, e.GetSize(v), e.GetEncodedSize(buf), len(enc)
 }
 
-// @ func lemmaRoundTripBytes
-// @   property C15
-// @   requires 0 <= size && len(v) == size
-// @   ensures len(result0) == len(v) && forall(k, 0, len(v), result0[k] == v[k])
-// @   ensures result1 == result4 && result2 == result4 && result3 == result4
+//@ func lemmaRoundTripBytes
+//@   property C15
+//@   requires 0 <= size && len(v) == size
+//@   ensures len(result0) == len(v) && forall(k, 0, len(v), result0[k] == v[k])
+//@   ensures result1 == result4 && result2 == result4 && result3 == result4
+
 func lemmaRoundTripBytes(size int, v []byte, tail []byte) ([]byte, int, int, int, int) {
 	e := Bytes{Size: size}
 	enc := e.Encode(v)
